@@ -134,7 +134,7 @@ fn exercise(ptr: *const u8, len: usize, with_names: bool, max_steps: usize) -> T
     // secondary iterator methods must agree with next(): nth(k), count()
     if let Some(Some(c)) = catch(|| catch(|| t.sections().count())) {
         rec.t.push("cnt", Val::U(c as u64));
-        for k in 0..=c.min(max_steps) {
+        for k in nth_probes(c.min(max_steps)) {
             match catch(|| t.sections().nth(k).map(|s| (s.section_type_raw(), s.start_address()))) {
                 Some(Some((ty, ad))) => rec.t.push(format!("n{k}"), Val::Txt(format!("{ty:#x}/{ad:#x}"))),
                 Some(None) => rec.t.push(format!("n{k}"), Val::None),
@@ -145,7 +145,25 @@ fn exercise(ptr: *const u8, len: usize, with_names: bool, max_steps: usize) -> T
     rec.t
 }
 
+/// The arguments with which nth() is probed for an iterator of `c` items:
+/// all of 0..=c for short ones, both ends and the middle for long ones.
+fn nth_probes(c: usize) -> Vec<usize> {
+    if c <= 64 {
+        return (0..=c).collect();
+    }
+    let mut v: Vec<usize> = (0..=32).collect();
+    v.extend([c / 2, c - 2, c - 1, c]);
+    v
+}
+
 pub fn eval(c: &Case, obs: &mut Obs) -> Result<(), String> {
+    eval_mode(c, obs, None)
+}
+
+/// `shared`: run in this process on that memory (the image is written to its
+/// start, so consecutive cases sit at the same address) instead of in a
+/// sandbox child.
+fn eval_mode(c: &Case, obs: &mut Obs, shared: Option<&mut Aligned>) -> Result<(), String> {
     let _ = names32();
     let img = image(c);
     let size = le32(&img, 4) as usize;
@@ -158,7 +176,22 @@ pub fn eval(c: &Case, obs: &mut Obs) -> Result<(), String> {
     // the tag (otherwise name() has no defined source for its address)
     let with_names = shape == ElfShape::Fits;
     let max_steps = img.len() / 8 + 8;
-    let t = match sbx::with_guarded(&img, 8, Place::End, |p, l| exercise(p, l, with_names, max_steps)) {
+    let boxed = match shared {
+        None => sbx::with_guarded(&img, 8, Place::End, |p, l| exercise(p, l, with_names, max_steps)),
+        Some(buf) => {
+            let mut all = buf.as_slice().to_vec();
+            if img.len() > all.len() {
+                return Err("malformed case: image larger than the shared buffer".into());
+            }
+            for b in all.iter_mut() {
+                *b = 0xEE;
+            }
+            all[..img.len()].copy_from_slice(&img);
+            buf.overwrite(&all);
+            Boxed::Done(exercise(buf.as_ptr(), img.len(), with_names, max_steps))
+        }
+    };
+    let t = match boxed {
         Boxed::Done(t) => t,
         Boxed::Crash(s) => return Err(format!("{ctx}: crashed: {s}")),
         Boxed::Inconclusive(w) => {
@@ -203,6 +236,7 @@ pub fn eval(c: &Case, obs: &mut Obs) -> Result<(), String> {
     if produced > model.len() {
         return Err(format!("{ctx}: produced {produced} sections, only {} in-use entries lie inside the tag", model.len()));
     }
+    let tmap = t.map();
     for (j, ent) in model.iter().take(produced).enumerate() {
         let q = format!("s{j}");
         let want: Vec<(String, Val)> = vec![
@@ -214,14 +248,14 @@ pub fn eval(c: &Case, obs: &mut Obs) -> Result<(), String> {
             (format!("{q}.addralign"), Val::U(ent.addralign)),
         ];
         for (k, v) in want {
-            if t.get(&k) != Some(&v) {
+            if tmap.get(k.as_str()).copied() != Some(&v) {
                 return Err(format!("{ctx}: {k}: expected {}, got {:?}", v.render(), t.get(&k).map(|x| x.render())));
             }
         }
         if with_names {
             let k = format!("{q}.name");
             let v = model_name(ent.name_index);
-            if t.get(&k) != Some(&v) {
+            if tmap.get(k.as_str()).copied() != Some(&v) {
                 return Err(format!("{ctx}: {k}: expected {}, got {:?}", v.render(), t.get(&k).map(|x| x.render())));
             }
         }
@@ -230,12 +264,13 @@ pub fn eval(c: &Case, obs: &mut Obs) -> Result<(), String> {
         if t.get("cnt") != Some(&Val::U(model.len() as u64)) {
             return Err(format!("{ctx}: sections().count() = {:?}, {} in-use entries", t.get("cnt").map(|v| v.render()), model.len()));
         }
-        for k in 0..=model.len() {
+        let tm = t.map();
+        for k in nth_probes(model.len()) {
             let want = match model.get(k) {
                 Some(e) => Val::Txt(format!("{:#x}/{:#x}", e.raw_type, e.addr)),
                 None => Val::None,
             };
-            if t.get(&format!("n{k}")) != Some(&want) {
+            if tm.get(format!("n{k}").as_str()).copied() != Some(&want) {
                 return Err(format!("{ctx}: sections().nth({k}): expected {}, got {:?}", want.render(), t.get(&format!("n{k}")).map(|v| v.render())));
             }
         }
@@ -277,6 +312,82 @@ pub fn eval(c: &Case, obs: &mut Obs) -> Result<(), String> {
         }
     }
     Ok(())
+}
+
+// --- several tags one after the other at the same address ---------------------------
+
+#[derive(Clone, Debug, Serialize, Deserialize)]
+pub struct SeqCase {
+    pub steps: Vec<Case>,
+}
+
+/// The tags are written one after the other to the same address and examined
+/// in this process: each must be treated exactly as if it had been the only
+/// one (in particular a truncated twin of a tag that was accepted before must
+/// still be rejected).
+pub fn eval_seq(c: &SeqCase, obs: &mut Obs) -> Result<(), String> {
+    let need = c.steps.iter().map(|s| 20 + s.table_len + 16).max().unwrap_or(0);
+    let mut buf = Aligned::new(&vec![0xEEu8; need.max(1 << 16) + 4096]);
+    let mut shapes = Vec::new();
+    for (i, step) in c.steps.iter().enumerate() {
+        let mut o = Obs::new();
+        eval_mode(step, &mut o, Some(&mut buf)).map_err(|m| format!("tag {} of {} at the same address: {m}", i + 1, c.steps.len()))?;
+        shapes.push(elf_shape(step.n as u64, step.entsize as u64, step.shndx as u64, step.table_len as u64));
+    }
+    let mixed = shapes.iter().any(|s| *s == ElfShape::Fits) && shapes.iter().any(|s| *s != ElfShape::Fits);
+    obs.class(if mixed { "!accepted-and-rejected" } else { "uniform" });
+    if mixed {
+        obs.nontrivial(fnv(format!("{:?}", c.steps).as_bytes()));
+        obs.sample(json!({"steps": c.steps.iter().map(|s| format!("n {} es {} shndx {} table {}", s.n, s.entsize, s.shndx, s.table_len)).collect::<Vec<_>>()}));
+    }
+    Ok(())
+}
+
+fn strategy_seq(ctx: &Ctx) -> BoxedStrategy<SeqCase> {
+    // a base case and 1..=3 variations of it: same fields with a shorter or longer
+    // table, another count, another index - or an unrelated case
+    (strategy(ctx), proptest::collection::vec((0u8..6, any::<u16>(), strategy(ctx)), 1..=3))
+        .prop_map(|(base, vars)| {
+            let mut steps = vec![base.clone()];
+            for (kind, r, other) in vars {
+                let mut v = base.clone();
+                let es = (base.entsize as usize).clamp(1, 4096);
+                match kind {
+                    0 => v.table_len = v.table_len.saturating_sub(es * (1 + r as usize % 3)),
+                    1 => v.table_len = v.table_len.saturating_sub(1 + r as usize % 40),
+                    2 => v.table_len = (v.table_len + es).min(4000),
+                    3 => v.n = v.n.wrapping_add(1 + r as u32 % 3),
+                    4 => v.shndx = v.shndx.wrapping_add(1 + r as u32 % 3),
+                    _ => v = other,
+                }
+                steps.push(v);
+            }
+            if steps.len() >= 2 && steps[0].key & 1 == 1 {
+                steps.swap(0, 1);
+            }
+            SeqCase { steps }
+        })
+        .boxed()
+}
+
+fn enumerate_seq(_: &Ctx) -> Box<dyn Iterator<Item = SeqCase>> {
+    let mut v = Vec::new();
+    for es in [40u32, 64] {
+        for n in 1..=4u32 {
+            for cut in [1usize, es as usize, 8] {
+                let full = Case { n, entsize: es, shndx: 0, table_len: (n * es) as usize, types: vec![1, 2, 3, 1], key: (n + es) as u64, small_links: true };
+                let mut short = full.clone();
+                short.table_len -= cut.min(short.table_len);
+                v.push(SeqCase { steps: vec![full.clone(), short.clone()] });
+                v.push(SeqCase { steps: vec![short, full.clone()] });
+            }
+        }
+    }
+    // tables that really hold more entries than a 16-bit counter counts
+    for (n, es) in [(65535u32, 40u32), (65536, 40), (65539, 40), (65536, 64)] {
+        v.push(SeqCase { steps: vec![Case { n, entsize: es, shndx: n - 1, table_len: (n * es) as usize, types: vec![1, 2, 3, 1], key: n as u64, small_links: false }] });
+    }
+    Box::new(v.into_iter())
 }
 
 fn type_classes() -> Vec<u32> {
@@ -346,7 +457,18 @@ fn strategy(_: &Ctx) -> BoxedStrategy<Case> {
 }
 
 pub fn subs() -> Vec<Box<dyn Sub>> {
-    vec![Box::new(PropSub::<Case> {
+    vec![
+    Box::new(PropSub::<SeqCase> {
+        name: "elf-sequences",
+        rule: "2..=4 ELF-sections tags written one after the other to the same address and examined in one process (ordinary heap memory): a base case and variations of it (the same count / entry size / index with a table shortened by whole entries or a few bytes, a longer table, another count, another index) or unrelated cases. Oracle: each tag is treated exactly as by the single-tag rule, whatever was examined at that address before. Enumerated: full table followed by its truncated twin and vice versa, n 1..=4 x both entry sizes x 3 cuts; and tables that really hold 65535, 65536 and 65539 entries (2.6 - 4 MB). Non-trivial = a sequence with an accepted and a rejected tag; distinct by the sequence",
+        profiles: Profiles::Both,
+        quick: 3000,
+        thorough: 150000,
+        strategy: strategy_seq,
+        enumerate: Some(enumerate_seq),
+        enum_exhaustive: false,
+        eval: eval_seq,
+    }),Box::new(PropSub::<Case> {
         name: "elf-iter",
         rule: "ELF-sections tags with marker entry bytes (sh_link alternately a small in-table index), stand-alone ending at a PROT_NONE page; every entry's addr field points at a harness-owned NUL-terminated names buffer (some names invalid UTF-8) so that name() is defined. Enumerated: n 0..=5 (thorough 7) x entry size {0,39,40,41,63,64,65,128} x table length {n*es, +8, -1, -8} x shndx {0..n-1, n, 2^16, 2^32-1, reserved ELF indices 0xff00..0xffff} with raw types rotating through 20 classes; generated: up to 13 fitting entries, random counts/sizes/indices/types. Fits (es in {40,64}, n*es <= len, (shndx+1)*es <= len): exactly the in-use entries in order with type/flags/addr/size/align/name decoded by the model from the ELF32/ELF64 layout. Count or size outside: controlled panic, anything produced before it is a correct in-tag entry. shndx outside: sections() or every name() panics. n == 0: no items. Non-trivial = not Fits, or n>=2 with a skipped entry; distinct by image hash",
         profiles: Profiles::Both,
